@@ -327,6 +327,18 @@ def r5(rr, repo):
                 else:
                     rr.violated('a client is dropped from the wait set without CLOSE or connection timeout', za.mod, e.node, witness=p.pc_text(e.pc_len)[-300:], key='del-other')
     rr.floor('kinds of client removal reached (close, timeout)', len(seen), 2, za.mod, za.S_poll)
+    # ... and the converse: a client whose last message is older than the connection timeout is removed on EVERY path (no extra
+    # condition such as "unless it is a required output": the restarted consumer comes back under a new connection id and the
+    # dead entry would block the publisher for ever)
+    loop, lpaths = client_loop_paths(za)
+    k = 0
+    for p in lpaths:
+        to, _ = timed_out(za, p)
+        if to:
+            k += 1
+            d = [e for e in p.events if e.kind == 'del' and 'clients[' in e.term]
+            rr.ob('a timed-out client is always dropped from the wait set', bool(d), za.mod, loop, witness=p.pc_text()[-260:], key='timeout-always-drops')
+    rr.floor('timed-out rows of the per-client table', k, 1, za.mod, loop)
 
 
 @rule('C04.R6', 'request identity: every request carries the per-connection unique id and the publisher keys its wait set by client id + unique id, so one consumer cannot answer for another')
